@@ -95,6 +95,8 @@ OpMinAll(x) == Val("S", x.lab, "", [i \in 1..3 |-> RMin(x.n[i][1], x.n[i][2])])
 OpMaxAll(x) == Val("S", x.lab, "", [i \in 1..3 |-> RMax(x.n[i][1], x.n[i][2])])
 OpRunning(x) == Val("L", x.lab, x.suf, [i \in 1..3 |-> <<x.n[i][1], RAdd(x.n[i][1], x.n[i][2])>>])
 OpShift1(x) == Val("L", x.lab, x.suf, [i \in 1..3 |-> <<RZero, x.n[i][1]>>])
+\* (a shift by the length of the series, or by more, leaves nothing: there is no wrap-around)
+OpShiftAll(x) == Val("L", x.lab, x.suf, [i \in 1..3 |-> <<RZero, RZero>>])
 OpSlice(x) == Val("L", x.lab, x.suf, [i \in 1..3 |-> <<x.n[i][1], x.n[i][2]>>])   \* x[0:2]
 OpRound(x) == Val("L", x.lab, x.suf, x.n)                                          \* integers: unchanged
 \* scalar total times an array of monthly factors -> series
@@ -115,7 +117,7 @@ OpConvert(op, x) ==
                           ELSE [i \in 1..3 |-> [m \in 1..NM |-> conv(i, x.n[i][m])]])
 
 Unary == {"DivNum", "MulNum", "RMulNum", "Neg", "Abs", "NegToZero"}
-SeriesOps == {"GetMonth", "GetItem", "GetItemNp", "Sum", "MinAll", "MaxAll", "Running", "Shift1", "Slice", "Round"}
+SeriesOps == {"GetMonth", "GetItem", "GetItemNp", "Sum", "MinAll", "MaxAll", "Running", "Shift1", "ShiftN", "ShiftMore", "Slice", "Round"}
 Binary == {"Add", "Sub", "MinElem", "DivFood", "MulFood"}
 
 Result(op, x, y) ==
@@ -126,7 +128,7 @@ Result(op, x, y) ==
     \* (GetItemNp: the index is a numpy integer)
     [] op \in {"GetMonth", "GetItem", "GetItemNp"} -> OpGetMonth(x, 2) [] op = "Sum" -> OpSum(x)
     [] op = "MinAll" -> OpMinAll(x) [] op = "MaxAll" -> OpMaxAll(x) [] op = "Running" -> OpRunning(x)
-    [] op = "Shift1" -> OpShift1(x) [] op = "Slice" -> OpSlice(x) [] op = "Round" -> OpRound(x)
+    [] op = "Shift1" -> OpShift1(x) [] op \in {"ShiftN", "ShiftMore"} -> OpShiftAll(x) [] op = "Slice" -> OpSlice(x) [] op = "Round" -> OpRound(x)
     [] op = "MulArr" -> OpMulArr(x)
     [] op \in Conversions -> OpConvert(op, x)
 
